@@ -1188,6 +1188,9 @@ func parsePageSelectors(rule pa.QualifiedRule) (out []pageSelector) {
 					nth := firstToken.Arguments
 					for i, argument := range firstToken.Arguments {
 						if ident, ok := argument.(pa.Ident); ok && ident.Value == "of" {
+							if i == 0 { // nothing before "of"
+								return nil
+							}
 							nth = (firstToken.Arguments)[:(i - 1)]
 							group = (firstToken.Arguments)[i:]
 						}
